@@ -75,6 +75,10 @@ CHECKS = {
    technique="explicit-state BFS (stateright) whose transition function calls the real Members::{add_member,remove_member,add_rtt}; invariants from a fold-by-newest reference model evaluated in every reachable state",
    text="All reachable states of the member table for 2 actors (3 and 2 identity timestamps), every assignment of address/cluster to identities (64 tables quick, 256 thorough), up/down notifications in any admissible order, RTT samples {1,(40),1000} ms for current and former addresses; presence, identity (ts/address/cluster) and ring/ring0 invariants in every state; shortest counterexample re-derived by FIFO search. 3.4e5 states quick, 3.0e7 thorough, to fix-point.",
    note="Alphabet assumptions: an identity (actor, ts) has one fixed address and cluster; distinct actors never share an address; a 'down' is only emitted for an identity announced 'up' before; an 'up' never carries an identity older than one reported down. foca itself is trusted."),
+ "C19": dict(engine="backup", design="§5 C19 (part A)",
+   technique="exhaustive grid over source databases x destinations x restore flags through the built corrosion binary's backup and restore commands, compared cell by cell with the source and served through a real node afterwards",
+   text="Sources: own changes only / own + two other actors with conflicting cells, deletions and overwritten versions (thorough: also switched to a rollback journal), with membership rows present. Destinations: absent, empty file, existing smaller database, existing larger database, WAL with un-checkpointed frames, each with a subscriptions directory. Flags: none, --self-actor-id, --actor-id known to the backup, --actor-id unknown. After `corrosion backup` + `corrosion restore`: replicated rows equal the source's, clock tables joined with crsql_site_id (authorship by actor, independent of ordinals) equal the source's, no membership rows, subscriptions directory gone, ordinal 0 is the expected actor (and never the source's when no flag is given), the backup left the source untouched; a node opened on the result has the expected actor id and serves every author's versions attributed to that author.",
+   note="Part B of the statement (a reader in another process during a live restore sees entirely old or entirely new content) is NOT covered by an exhaustive check yet (system-call gated interleaving search planned in DESIGN.md §5 C19-B). MANIFEST setup_cmd builds the corrosion binary."),
  "C20": dict(engine="locks", design="§5 C20 (part A)",
    technique="stateless DFS over all harness-visible schedules of the real SplitPool (hand-polled requester futures with flag wakers on a current-thread runtime with paused time), deviation-bounded deferral of the dispatcher, every schedule run to completion",
    text="2-3 (thorough up to 4) concurrent write_priority/normal/low requests; actions: poll a woken requester, cancel a waiting requester (while queued or already granted but not yet polled), release a holder; each action either lets the dispatcher task run afterwards or defers it (<= 1, thorough 2 deferrals). On every schedule: never two WriteConn alive; at every release the next grant goes to a request of the highest priority among those queued at the release; every non-cancelled request is granted (a state with waiters, no holder and nobody woken is a deadlock); the schedule terminates.",
@@ -111,7 +115,7 @@ def main():
     hook_shas = [l.split()[0] for l in hooks_commits if " verif hooks" in l or "verif hook" in l]
     m = {
         "version": 1,
-        "setup_cmd": "cd /verif/harness && CARGO_NET_OFFLINE=true cargo build",
+        "setup_cmd": "cd /verif/harness && CARGO_NET_OFFLINE=true cargo build && cd /repo && CARGO_NET_OFFLINE=true cargo build -p klukai --bin corrosion --offline",
         "hooks": {
             "guard": "cargo feature `verif` on klukai-types and klukai-agent (off by default)",
             "enable": "the harness crate /verif/harness depends on /repo/crates/klukai-{types,agent} by path with features=[\"verif\"]; bin/check runs `cargo build` there before every check, so edits under /repo are picked up",
@@ -120,6 +124,7 @@ def main():
             "add_only": True,
         },
         "engines": [
+            {"name": "backup", "path": "harness/src/bin/backup.rs", "serves_properties": ["C19"], "kind_free_text": "grid over the corrosion binary's backup/restore commands"},
             {"name": "booked", "path": "harness/src/bin/booked.rs", "serves_properties": ["C02"], "kind_free_text": "BFS to fix-point over real bookkeeping + replay-BFS over a real node"},
             {"name": "codec", "path": "harness/src/bin/codec.rs", "serves_properties": ["C09"], "kind_free_text": "exhaustive bounded input enumeration in child processes"},
             {"name": "ingest", "path": "harness/src/bin/ingest.rs", "serves_properties": ["C10"], "kind_free_text": "exhaustive arrival sequences through the real handle_changes loop"},
